@@ -12,7 +12,8 @@ LEVEL_NOTE = ("code and specification apply the same trusted primitive (binascii
               "covered by the bounded value oracle only; xortool key guessing (floats) is not covered")
 DESIGN_REF = "DESIGN.md 6 (C13)"
 FUNCTIONS = ["multidecoder.decoders.hex.find_hex", "multidecoder.decoders.base64.find_atob", "multidecoder.decoders.base64.find_Base64Decode",
-             "multidecoder.decoders.base64.find_base64", "multidecoder.xor_helper.apply_xor_key"]
+             "multidecoder.decoders.base64.find_base64", "multidecoder.xor_helper.apply_xor_key", "multidecoder.xor_helper.get_xorkey",
+             "multidecoder.decoders.base64.find_FromBase64String", "multidecoder.decoders.hex.find_FromHexString", "multidecoder.decoders.base64.pad_base64"]
 TRUSTED = [DC.NOT_UNDER_CONTRACT]
 BOUNDED = [O.bounded("C13", O.cases_C13)]
 
